@@ -86,7 +86,8 @@ impl<'a> PrettyPrinter<'a> {
 
     /// In math mode, we have `$fun(1, 2; 3, 4)$ == $fun(#(1, 2), #(3, 4))$`.
     pub(super) fn convert_array(&'a self, ctx: Context, array: Array<'a>) -> ArenaDoc<'a> {
-        let ctx = ctx.with_mode(Mode::CodeCont);
+        // The rows of 2D math args (`mat(1, 2; 3, 4)`) are arrays of math: they stay in math mode.
+        let ctx = ctx.with_mode_if(Mode::CodeCont, !ctx.mode.is_math());
 
         // Whether the array has parens.
         // This is also used to determine whether we need to add a trailing comma.
